@@ -46,15 +46,18 @@ type Report struct {
 	SelfTestOK bool           `json:"selftest_ok"`
 }
 
-func vsWorker() string {
-	return fmt.Sprintf("%s/worker-vs.run.%s", os.Getenv("VERIF_BUILD"), os.Getenv("VERIF_RUNID"))
+func vsWorker(flavour string) string {
+	return fmt.Sprintf("%s/worker-%s.run.%s", os.Getenv("VERIF_BUILD"), flavour, os.Getenv("VERIF_RUNID"))
 }
 
 // Exec runs `worker-vs e3 <prop> <tier>` and returns its report.
-func Exec(prop, tier string, extra ...string) *Report {
-	bin := vsWorker()
+func Exec(prop, tier string, extra ...string) *Report { return ExecFlavour("vs", prop, tier, extra...) }
+
+// ExecFlavour: flavour "vs" (rewritten channel/timer operations) or "vsr" (plus access reports for the race oracle).
+func ExecFlavour(flavour, prop, tier string, extra ...string) *Report {
+	bin := vsWorker(flavour)
 	if _, err := os.Stat(bin); err != nil {
-		bin = os.Getenv("VERIF_BUILD") + "/worker-vs"
+		bin = os.Getenv("VERIF_BUILD") + "/worker-" + flavour
 	}
 	args := append([]string{"e3", prop, tier}, extra...)
 	cmd := exec.Command(bin, args...)
@@ -239,7 +242,14 @@ func racePass(procs, iters int) (races []RaceReport, crashes []string, ran int) 
 			if len(tail) > 1500 {
 				tail = tail[len(tail)-1500:]
 			}
-			crashes = append(crashes, fmt.Sprintf("%v: %s", r.err, tail))
+			head := ""
+			for _, l := range strings.Split(r.out, "\n") {
+				if strings.HasPrefix(l, "fatal error:") || strings.HasPrefix(l, "panic:") {
+					head = l + "\n"
+					break
+				}
+			}
+			crashes = append(crashes, fmt.Sprintf("%s%v: %s", head, r.err, tail))
 		}
 	}
 	return ParseRaces(all), crashes, ran
@@ -248,8 +258,18 @@ func racePass(procs, iters int) (races []RaceReport, crashes []string, ran int) 
 // RunC17 is the check entry point of C17.
 func RunC17(tier string) {
 	run := evid.NewRun("C17", tier)
+	// the two explorations run side by side (each shards its scenarios over processes of its own)
+	var repR *Report
+	doneR := make(chan struct{})
+	go func() { repR = ExecFlavour("vsr", "C17R", tier); close(doneR) }()
 	rep := Exec("C17", tier)
+	<-doneR
 	sch, pts, out, exh, smp := Apply(run, rep, "C17", nil)
+	schR, ptsR, outR, exhR, _ := Apply(run, repR, "C17", nil)
+	run.Set("race_oracle", map[string]interface{}{"schedules": schR, "scheduling_points": ptsR, "distinct_outcomes": outR, "exhaustive_within_bounds": exhR,
+		"access_reports_inserted": repR.Inventory["race-oracle access reports"],
+		"how": "vsr flavour: the rewriter additionally inserts a report for every field / map / slice-element access of internal/pfcp and internal/forwarder/perio; vsched keeps vector clocks (edges: go statement, channel send->receive, close->receive, AfterFunc->callback) and flags two accesses to one location, one of them a write, with no happens-before path, in every explored schedule"})
+	sch, pts, out, exh = sch+schR, pts+ptsR, out+outR, exh && exhR
 	run.Set("states", sch)
 	run.Set("transitions", pts)
 	run.Set("traces_validated_against_impl", sch)
@@ -259,7 +279,8 @@ func RunC17(tier string) {
 	run.Set("samples", smp)
 	run.Set("explanation", "states = complete schedules executed, transitions = scheduling points taken; every schedule is an execution of the real code under the cooperative scheduler, so traces_validated_against_impl = schedules. Decided here: exactly-once processing of every notification and timeout, no panic, no deadlock, and complete termination (no goroutine left, no timer armed) after Stop placed at every scheduling point within the preemption bound.")
 	run.Set("bound", "2-3 peers x 1-3 requests with duplicates, 1-3 report producers, transaction timers fired by the scheduler (fire budget 1-3), Stop as a thread of its own; preemption bound per scenario as listed (iterated from 0); state-key pruning on")
-	run.Assumption("confinement argument: under the scheduler every shared-memory access of the two rewritten packages happens between two scheduling points of one thread; data races proper (unsynchronised accesses the scheduler cannot see) are looked for by the separate free-running -race pass below, which samples schedules and decides nothing")
+	run.Assumption("data races are decided by the happens-before oracle on every explored schedule of the C17R scenarios (instrumented packages: internal/pfcp, internal/forwarder/perio; locations: struct fields of those packages reached through pointers, maps, slice elements, package variables; accesses inside other packages' code, e.g. the gtp5g driver or go-pfcp message objects, are not instrumented); the free-running -race pass below is a sampled complement over the unrewritten code and decides nothing")
+	run.Assumption("scenarios with state-key pruning extend the key by the set of (location, thread kind, read/write) combinations seen so far; pair scenarios run without any pruning")
 	procs, iters := 4, 25
 	if tier == "thorough" {
 		procs, iters = 12, 150
@@ -276,7 +297,20 @@ func RunC17(tier string) {
 			// the shutdown panic E3 finds systematically; here it only ends one sampling process early
 			continue
 		}
-		evid.Infra("race-pass worker failed: %s", c)
+		// a crash of the free-running run that is not the known shutdown panic: the implementation faulted
+		// (e.g. "fatal error: concurrent map writes")
+		first := "process died"
+		for _, l := range strings.Split(c, "\n") {
+			if strings.HasPrefix(l, "fatal error:") || strings.HasPrefix(l, "panic:") {
+				first = strings.TrimSpace(l)
+				break
+			}
+		}
+		if first == "process died" && !strings.Contains(c, "goroutine ") {
+			evid.Infra("race-pass worker failed: %s", c)
+		}
+		run.Report(evid.Violation{Signature: "C17:racepass-crash:" + first, Engine: "race-pass (free-running, go build -race; complement, not model checking)", Scenario: "racepass",
+			What: "the free-running run crashed: " + first, Replay: map[string]interface{}{"output_tail": c}})
 	}
 	run.Set("race_pass", map[string]interface{}{"role": "complement: free-running goroutines under the race detector on the unrewritten code; sampled, decides nothing",
 		"processes": procs, "iterations_completed": ran, "distinct_races": sigs, "processes_ended_early": len(crashes)})
